@@ -64,6 +64,7 @@ fn run_with<S: Scheduler + 'static>(p: &Arc<Program>, sched: S) {
 
 pub fn run_program(p: &Arc<Program>) -> Vec<String> {
     let _ = take_log();
+    interp::LIVE.store(0, std::sync::atomic::Ordering::SeqCst);
     let parts: Vec<&str> = p.run.split(':').collect();
     let num = |i: usize| -> u64 { parts.get(i).and_then(|s| s.parse().ok()).unwrap_or(0) };
     match parts[0] {
